@@ -120,13 +120,26 @@ def mk_nested_case(i, rng):
         return "{ " + " ".join(texts) + " }", ('allot', nodes)
 
     t, node = allot(rng.choice([1, 1, 2]))
+    if side == "src" and rng.random() < 0.15:
+        # an allotment whose portions do not add up to one is rejected wherever it stands, also behind a source that
+        # already covers the whole amount
+        bad = rng.choice(["{ 1/2 from @q1 1/3 from @q2 }", "{ 3/4 from @q1 3/4 from @q2 }", "{ 10% from @q1 remaining from @q2 100% from @q3 }"])
+        bsum = {"{ 1/2": Fraction(5, 6), "{ 3/4": Fraction(3, 2), "{ 10%": Fraction(11, 10)}[bad[:5]]
+        cover = rng.choice(["@world", "@c0 allowing unbounded overdraft", "max $amt2 from @world"])
+        t = "{ %s %s }" % (cover, bad)
+        node = ('reject', "InvalidAllotmentSum", ["%d/%d" % (bsum.numerator, bsum.denominator)])
+        if "amt2" in cover:
+            need_cap[0] = "amt2"
     vars_, decls = {}, []
     amount = "[COIN %d]" % n
     if n >= 2 ** 63:
         vars_["amt"] = "COIN %d" % n
         decls.append("monetary $amt")
         amount = "$amt"
-    if need_cap[0]:
+    if need_cap[0] == "amt2":
+        vars_["amt2"] = "COIN %d" % (n + 5)
+        decls.append("monetary $amt2")
+    elif need_cap[0]:
         vars_["cap"] = "COIN %d" % 10 ** 40
         decls.append("monetary $cap")
     vb = ("vars {\n" + "".join("  %s\n" % d for d in decls) + "}\n") if decls else ""
@@ -143,6 +156,13 @@ def mk_nested_case(i, rng):
 
 
 def nested_oracle(case, gen, go):
+    st = gen["stmts"][0]
+    if st[3][0] == 'reject':
+        if go["outcome"] == "ok":
+            return ["portions summing to %s were accepted (behind a source that covers the amount)" % st[3][2][0]]
+        if go.get("errKind") != st[3][1]:
+            return ["portions summing to %s rejected with %s" % (st[3][2][0], go.get("errKind"))]
+        return []
     try:
         exp = spec.run_statements(gen["stmts"], {})
     except spec.SpecError as e:
